@@ -1990,12 +1990,18 @@ func (mvcc *MVCCLevelDB) RawCompareAndSwap(cf string, key, expectedValue, newVal
 	}
 
 	oldValue, err = db.Get(key, nil)
-	if err != nil {
+	if err == leveldb.ErrNotFound {
+		// The key does not exist: oldValue is nil, and only expectedValue == nil
+		// ("previous value must not exist") matches.
+		oldValue, err = nil, nil
+	} else if err != nil {
 		tikverr.Log(err)
 		return nil, false, errors.WithStack(err)
+	} else if oldValue == nil {
+		oldValue = []byte{}
 	}
 
-	if !bytes.Equal(oldValue, expectedValue) {
+	if (oldValue == nil) != (expectedValue == nil) || !bytes.Equal(oldValue, expectedValue) {
 		return oldValue, false, nil
 	}
 
